@@ -1,5 +1,6 @@
 import GtirbVerif.Lemmas.Splice
 import GtirbVerif.Lemmas.IRFunc
+import GtirbVerif.Lemmas.IRMirror
 import GtirbVerif.Props.C20
 
 /-!
@@ -66,5 +67,15 @@ theorem neighbours_are_transparent {o : BOrd} {cs : Chains} (h : Repr o cs) (b :
 theorem function_of_block_is_transparent (ir : IR) (b : Nat) (h : Mirror ir) :
     Mirror (ir.removeFunctionBlock b) ∧ ∀ f, alookup b ir.fbb = none → Mirror (ir.addFunctionBlock b f) :=
   ⟨removeFunctionBlock_mirror ir b h, fun f hn => addFunctionBlock_mirror ir b f h hn⟩
+
+/-- **at every intermediate step of a batch the function cache agrees with the IR**: whatever
+prefix of the requests of a block has been carried out (`ms₁`), and whatever comes after, the
+state in between satisfies the mirror relation -/
+theorem function_cache_agrees_at_every_step (origOff i : Nat) (func : Option Nat) (ms : List Mod) (ir ir' : IR)
+    (actual : Option Nat) (total : Int)
+    (h : IR.applyMods origOff func ir actual total ms = .ok ir')
+    (hact : ∀ a, actual = some a → In i ir a) (hI : IdsBelow ir) (hnew : NewBlocks origOff func ir actual total ms)
+    (hm : MInv ir) : Mirror ir' :=
+  (applyMods_minv origOff i func ms ir ir' actual total h hact hI hnew hm).1
 
 end GtirbVerif.Props.C09
